@@ -56,6 +56,8 @@ pub struct ConnInfo {
     pub bytes_in: u64,  // acceptor -> initiator
     pub accepted: bool,
     pub refused: bool,
+    /// connection-level faults attached to this connection when it was opened
+    pub faults: Vec<String>,
 }
 
 #[derive(Clone, Debug)]
@@ -323,7 +325,9 @@ pub async fn connect_as(task: TaskIds, protocol: u32, addr: &str, agent: bool) -
             let a = &n.armed[i];
             let m = a.dst.as_ref().map(|d| *d == actual_s).unwrap_or(true) && a.agent_initiated.map(|x| x == agent).unwrap_or(true);
             if m {
+                // one armed fault is spent on one connection
                 my_faults.push(n.armed.remove(i).kind);
+                break;
             } else {
                 i += 1;
             }
@@ -334,7 +338,7 @@ pub async fn connect_as(task: TaskIds, protocol: u32, addr: &str, agent: bool) -
         if refused || !n.listeners.contains_key(&actual_s) {
             n.next_conn += 1;
             let id = n.next_conn;
-            n.conns.push(ConnInfo { id, initiator: task, src, requested_dst: want, actual_dst: actual, redirected: res.redirected, opened_ns: crate::time::now_ns(), bytes_out: 0, bytes_in: 0, accepted: false, refused: true });
+            n.conns.push(ConnInfo { id, initiator: task, src, requested_dst: want, actual_dst: actual, redirected: res.redirected, opened_ns: crate::time::now_ns(), bytes_out: 0, bytes_in: 0, accepted: false, refused: true, faults: my_faults.iter().map(|f| format!("{:?}", f)).collect() });
             return Err(io::Error::new(io::ErrorKind::ConnectionRefused, "Connection refused (os error 111)"));
         }
         n.next_conn += 1;
@@ -363,6 +367,7 @@ pub async fn connect_as(task: TaskIds, protocol: u32, addr: &str, agent: bool) -
             bytes_in: 0,
             accepted: false,
             refused: false,
+            faults: my_faults.iter().map(|f| format!("{:?}", f)).collect(),
         });
         let l = n.listeners.get_mut(&actual_s).unwrap();
         l.queue.push_back((b, SocketAddr::V4(src)));
